@@ -568,6 +568,9 @@ func (g *fanGen) ServiceGenerator() iplugin.ServiceGenerator { return g }
 // (C) fan-out: MultiServiceGenerator, MultiHandle.Close, concurrent.Range
 func c18Fanout(res *world.Result, s *simrt.Sim, logf func(string, ...interface{}), h *world.Hasher, o world.Opts) {
 	K := 1 + ch("c18.generators", 6)
+	if simrt.Flip("c18.many-generators", 0.15) {
+		K = 7 + ch("c18.generators-more", 12) // 7..18: also counts that are not multiples of small worker numbers
+	}
 	gens := make([]*fanGen, K)
 	want := map[string]string{}
 	collide := false
@@ -576,21 +579,38 @@ func c18Fanout(res *world.Result, s *simrt.Sim, logf func(string, ...interface{}
 	var mh iplugin.MultiHandle
 	for i := range gens {
 		g := &fanGen{name: fmt.Sprintf("gen%d", i), files: map[string][]byte{}}
+		dir := g.name
+		if i > 0 && simrt.Flip("c18.same-name", 0.1) {
+			// a second instance of a generator of that name (its files are its own)
+			g.name = fmt.Sprintf("gen%d", ch("c18.same-name-as", i))
+		}
 		n := ch("c18.files", 4)
+		mine := map[string]bool{}
 		for k := 0; k < n; k++ {
-			path := fmt.Sprintf("%s/f%d.go", g.name, k)
+			path := fmt.Sprintf("%s/f%d.go", dir, k)
 			if i > 0 && simrt.Flip("c18.collide", 0.08) {
 				path = fmt.Sprintf("gen%d/f0.go", ch("c18.collide-with", i))
 			}
-			if _, dup := g.files[path]; dup {
+			clean := path
+			// the same file may be spelled in several ways
+			switch simrt.ChoiceBias("c18.spelling", 4, 0.7) {
+			case 1:
+				path = "./" + path
+			case 2:
+				path = strings.Replace(path, "/", "//", 1)
+			case 3:
+				path = strings.Replace(path, "/", "/./", 1)
+			}
+			if mine[clean] {
 				continue
 			}
-			content := fmt.Sprintf("// %s %d", g.name, k)
+			mine[clean] = true
+			content := fmt.Sprintf("// %s[%d] %d", g.name, i, k)
 			g.files[path] = []byte(content)
-			if _, taken := want[path]; taken {
+			if _, taken := want[clean]; taken {
 				collide = true
 			}
-			want[path] = content
+			want[clean] = content
 		}
 		g.fail = simrt.Flip("c18.fail", 0.1)
 		anyFail = anyFail || g.fail
